@@ -597,6 +597,137 @@ class ForgetMark(MaskMixin, Strategy):
         return cls(d.get("mask"), d.get("lazy", False))
 
 
+class PlusAtom(Constructor):
+    """parent = {one word of the given size and statistics} + disjoint union of the children (identity
+    parameter maps): a user-defined constructor with several children in which the parent is non-empty
+    even when every child is empty."""
+
+    def __init__(self, size, params, n_children):
+        self.size = size
+        self.params = tuple(params)
+        self.n_children = n_children
+
+    def get_equation(self, lhs_func, rhs_funcs):
+        import sympy
+
+        atom = sympy.abc.x**self.size
+        for i, v in enumerate(self.params):
+            atom *= sympy.var(f"k{i}") ** v
+        return sympy.Eq(lhs_func, atom + sum(rhs_funcs))
+
+    def reliance_profile(self, n, **parameters):
+        return tuple({"n": (n,)} for _ in range(self.n_children))
+
+    def get_terms(self, parent_terms, subterms, n):
+        res = Counter()
+        for st in subterms:
+            for k, v in st(n).items():
+                res[k] += v
+        if n == self.size:
+            res[self.params] += 1
+        return res
+
+    def get_sub_objects(self, subobjs, n):
+        res = [[None] for _ in range(self.n_children)]
+        for i, subobj in enumerate(subobjs):
+            for param, objs in subobj(n).items():
+                res[i] = objs
+                yield param, tuple(res)
+            res[i] = [None]
+        if n == self.size:
+            yield self.params, tuple([None] for _ in range(self.n_children))
+
+    def random_sample_sub_objects(self, parent_count, subsamplers, subrecs, n, **parameters):
+        choice = CURRENT_RNG.randint(1, parent_count)
+        total = 0
+        if n == self.size and tuple(parameters[f"k{i}"] for i in range(len(self.params))) == self.params:
+            total += 1
+            if choice <= total:
+                return tuple(None for _ in range(self.n_children))
+        for idx, (rec, sampler) in enumerate(zip(subrecs, subsamplers)):
+            total += rec(n=n, **parameters)
+            if choice <= total:
+                return tuple(None for _ in range(idx)) + (sampler(n=n, **parameters),) + tuple(None for _ in range(self.n_children - idx - 1))
+        raise RuntimeError("PlusAtom: nothing chosen")
+
+    def equiv(self, other, data=None):
+        return isinstance(other, PlusAtom) and (other.size, other.n_children) == (self.size, self.n_children), None
+
+
+class ExpandFolded(MaskMixin, Strategy):
+    """W(p) = {p} + sum over letters a of W(p a), with the atom {p} folded into the constructor (PlusAtom)
+    instead of being a child: every child may be empty while the parent is not; with a one-letter alphabet
+    the rule is unary with a possibly empty child.  One-way, not reversible, never an equivalence."""
+
+    def __init__(self, mask=None, lazy=False):
+        super().__init__(ignore_parent=False, inferrable=True, possibly_empty=True, workable=True)
+        self.mask = mask
+        self.lazy = lazy
+
+    def _args_repr(self):
+        return ""
+
+    def can_be_equivalent(self):
+        return False
+
+    def is_two_way(self, comb_class):
+        return False
+
+    def is_reversible(self, comb_class):
+        return False
+
+    def shifts(self, comb_class, children=None):
+        if children is None:
+            children = self.decomposition_function(comb_class)
+        return tuple(0 for _ in children)
+
+    def decomposition_function(self, c):
+        if c.just_prefix or c.is_empty() or c.marks > 1 or c.start_set is not None or self.masked(c):
+            return None
+        return tuple(c.replace(prefix=tuple(c.prefix) + (a,)) for a in c.alphabet)
+
+    def constructor(self, comb_class, children=None):
+        if children is None:
+            children = self.decomposition_function(comb_class)
+            if children is None:
+                raise StrategyDoesNotApply("Strategy does not apply")
+        return PlusAtom(len(comb_class.prefix), comb_class.get_parameters(comb_class.prefix), len(children))
+
+    def reverse_constructor(self, idx, comb_class, children=None):
+        raise NotImplementedError
+
+    def extra_parameters(self, comb_class, children=None):
+        if children is None:
+            children = self.decomposition_function(comb_class)
+            if children is None:
+                raise StrategyDoesNotApply("Strategy does not apply")
+        return _ident(comb_class, children)
+
+    def backward_map(self, comb_class, objs, children=None):
+        if all(o is None for o in objs):
+            yield Wd(comb_class.prefix)
+        else:
+            yield next(o for o in objs if o is not None)
+
+    def forward_map(self, comb_class, obj, children=None):
+        if children is None:
+            children = self.decomposition_function(comb_class)
+        res = [None] * len(children)
+        if tuple(obj) != tuple(comb_class.prefix):
+            for i, ch in enumerate(children):
+                if tuple(obj[: len(ch.prefix)]) == tuple(ch.prefix):
+                    res[i] = obj
+                    break
+        return tuple(res)
+
+    def to_jsonable(self):
+        return self._base_json()
+
+    @classmethod
+    def from_dict(cls, d):
+        return cls(d.get("mask"), d.get("lazy", False))
+
+
 class _Unary(MaskMixin, DisjointUnionStrategy):
     """Equivalence strategies: one child with exactly the same words."""
 
@@ -1058,6 +1189,46 @@ class ExpandFactory(StrategyFactory):
         return cls(d["ds"], d["as_rules"], d["foreign"], d["dup"], d["mask"], d.get("foreign_first", False), d.get("with_remove_front", False))
 
 
+class OrbitFactory(StrategyFactory):
+    """A symmetry given as a factory of ready-made rules: the symmetry rule of the class and the symmetry rule
+    of its image (an orbit chain C -> s(C), s(C) -> s(s(C)); the second rule's parent is not the class the
+    factory was applied to)."""
+
+    def __init__(self, perm=(1, 0), mask=None, foreign_first=False):
+        self.perm = tuple(perm)
+        self.mask = mask
+        self.foreign_first = foreign_first
+
+    def strategies(self):
+        return [LetterPermutation(self.perm, self.mask)]
+
+    def __call__(self, comb_class):
+        CALL_LOG.append((repr(self), comb_class.key()))
+        st = LetterPermutation(self.perm, self.mask)
+        own, chain = [], []
+        if st.applies(comb_class):
+            own = [st(comb_class)]
+            img = st.image(comb_class)
+            if st.applies(img):
+                chain = [st(img)]
+        yield from (chain + own if self.foreign_first else own + chain)
+
+    def __repr__(self):
+        return f"OrbitFactory(perm={self.perm},mask={self.mask},ff={self.foreign_first})"
+
+    def __str__(self):
+        return repr(self)
+
+    def to_jsonable(self):
+        d = super().to_jsonable()
+        d.update(perm=list(self.perm), mask=self.mask, foreign_first=self.foreign_first)
+        return d
+
+    @classmethod
+    def from_dict(cls, d):
+        return cls(d["perm"], d.get("mask"), d.get("foreign_first", False))
+
+
 class AtomTwinFactory(StrategyFactory):
     """Atom verification as a factory that yields ready-made verification rules: the rule of the class itself
     when it is an atom and, for a non-atom, the rule of ANOTHER class - the atom of its prefix (a verification
@@ -1103,6 +1274,7 @@ class AtomTwinFactory(StrategyFactory):
 
 _STRATS = {
     "Expand": lambda s: Expand(s.get("d", 1), _mask(s), s.get("lazy", False), s.get("drop", False), s.get("atom_last", False)),
+    "ExpandFolded": lambda s: ExpandFolded(_mask(s), s.get("lazy", False)),
     "SplitZeros": lambda s: SplitZeros(_mask(s), s.get("lazy", False)),
     "ForgetMark": lambda s: ForgetMark(_mask(s), s.get("lazy", False)),
     "RemoveFront": lambda s: RemoveFront(_mask(s), s.get("lazy", False), s.get("split", False), s.get("merge", False), s.get("split3", False), s.get("pe", False)),
@@ -1113,6 +1285,7 @@ _STRATS = {
     "Rename": lambda s: Rename(tuple(s["perm"]), _mask(s), s.get("lazy", False), s.get("two_way", False), s.get("ignore_parent", False), s.get("empty_first", False)),
     "LetterPermutation": lambda s: LetterPermutation(tuple(s["perm"]), _mask(s), s.get("lazy", False)),
     "WordAtom": lambda s: WordAtom(),
+    "OrbitFactory": lambda s: OrbitFactory(tuple(s["perm"]), _mask(s), s.get("foreign_first", False)),
     "AtomTwinFactory": lambda s: AtomTwinFactory(s.get("foreign", True), s.get("foreign_first", False)),
     "AtomStrategy": lambda s: AtomStrategy(),
     "FiatVerified": lambda s: FiatVerified(
@@ -1169,7 +1342,7 @@ def pack_strategies(pack):
         if isinstance(st, ExpandFactory):
             res.extend(st.strategies())
             res.append(Expand(1, mask=st.mask))
-        elif isinstance(st, AtomTwinFactory):
+        elif isinstance(st, (AtomTwinFactory, OrbitFactory)):
             res.extend(st.strategies())
         else:
             res.append(st)
@@ -1296,6 +1469,8 @@ def selfcheck_rule(strategy, c, nmax=5):
                     # several parent statistics on one child statistic must agree: automatic
                     if ok:
                         built[(w, tuple(vals))] += 1
+        if isinstance(strategy, ExpandFolded) and n == len(c.prefix):
+            built[(tuple(c.prefix), c.get_parameters(c.prefix))] += 1
         if built != parent:
             raise WorldBug(f"{strategy} on {c} is not a bijection at n={n}: parent {sorted(parent.items())[:6]} built {sorted(built.items())[:6]}")
     if c.minimum_size_of_object() != len(c.prefix):
